@@ -1,3 +1,4 @@
--- This module serves as the root of the `Lungo` library.
--- Import modules here that should be built as part of the library.
-import Lungo.Basic
+import Lungo.Model.Value
+import Lungo.Model.Num
+import Lungo.Model.Compare
+import Lungo.Model.Json
